@@ -171,6 +171,17 @@ pub fn any_small_error() -> Error {
     }
 }
 
+/// Errors with one-character texts (handlers that only pass errors on; their formatting is C09).
+pub fn any_tiny_error() -> Error {
+    let code: i16 = kani::any();
+    kani::assume(code > -10 && code < 10);
+    if kani::any() {
+        Error::custom(code, b"V")
+    } else {
+        Error::custom(code, b"V").extended(b"x")
+    }
+}
+
 pub fn any_dev_with(queue: KQueue) -> KDev {
     KDev {
         esr: kani::any(),
